@@ -46,45 +46,58 @@ def r_chain(E):
             and norm(c.func.value) == "attr_updates_chain"]
     if not apps:
         res.undecided.append("attr_updates_chain: no append to the chain found")
+    from ..astutil import path_conditions, positive_atoms
     for a in apps:
         res.instances += 1
-        guards = _enclosing_ifs(a, fn)
-        all_guard = None
-        for g, in_body in guards:
-            for c in _calls(g.test):
-                if isinstance(c.func, ast.Name) and c.func.id == "all" and in_body:
-                    all_guard = (g, c)
-        not_added = any(in_body and isinstance(g.test, ast.UnaryOp) and isinstance(g.test.op, ast.Not)
-                        and "has_been_added" in norm(g.test) for g, in_body in guards)
-        if all_guard is None:
+        stmt = a
+        while not isinstance(getattr(stmt, "_parent", None), (ast.For, ast.While, ast.If, ast.FunctionDef)):
+            stmt = stmt._parent
+        # the "added" flag dict: the one set to True for the appended child in the same block
+        marks = []
+        up = stmt
+        while not marks and up is not None and up is not fn and not isinstance(up, (ast.For, ast.While)):
+            block_parent = getattr(up, "_parent", None)
+            sibs = [x for f in ("body", "orelse") for x in (getattr(block_parent, f, None) or [])]
+            if any(x is up for x in sibs):
+                marks = [n for n in sibs if isinstance(n, ast.Assign) and isinstance(n.targets[0], ast.Subscript)
+                         and norm(n.value) == "True" and n.lineno >= up.lineno]
+            up = block_parent
+        if not marks:
+            res.findings.append(Finding("R-CHAIN", "attr_updates_chain mark", "a value appended to the chain is not marked "
+                                        "as added: it is appended again on the next sweep", rel, a.lineno,
+                                        "ExplainableObject.attr_updates_chain"))
+            continue
+        flag = norm(marks[0].targets[0].value)
+        true, false = positive_atoms(path_conditions(stmt, fn))
+        # (1) all(<flag>[ancestor.id] for ancestor in <ancestors among descendants>) holds
+        all_ok, shape_ok = False, True
+        for t in true:
+            for c in ast.walk(t):
+                if isinstance(c, ast.Call) and isinstance(c.func, ast.Name) and c.func.id == "all" and c.args:
+                    comp = c.args[0]
+                    if isinstance(comp, (ast.ListComp, ast.GeneratorExp)) and norm(comp.elt).startswith(flag + "["):
+                        all_ok = True
+                        src = comp.generators[0].iter
+                        defs = {norm(n.targets[0]): n.value for n in ast.walk(fn) if isinstance(n, ast.Assign)}
+                        d = defs.get(norm(src), src)
+                        if "direct_ancestors_with_id" not in norm(d):
+                            shape_ok = False
+        if not all_ok:
             res.findings.append(Finding(
                 "R-CHAIN", "attr_updates_chain append guard",
                 "attr_updates_chain appends a dependent value without first requiring that all its ancestors (among the "
                 "descendants of the edited value) are already in the chain: a value can be recomputed before one of its "
                 "inputs", rel, a.lineno, "ExplainableObject.attr_updates_chain"))
             continue
-        g, c = all_guard
-        comp = c.args[0] if c.args else None
-        ok = isinstance(comp, (ast.ListComp, ast.GeneratorExp)) and "has_been_added" in norm(comp.elt)
-        src = norm(comp.generators[0].iter) if ok else ""
-        # the iterated collection must be the child's direct ancestors restricted to the descendants
-        defs = {norm(n.targets[0]): n.value for n in ast.walk(fn) if isinstance(n, ast.Assign)}
-        d = defs.get(src)
-        restricted = d is not None and "direct_ancestors_with_id" in norm(d) and "descendants" in norm(d)
-        if not ok or not (restricted or "direct_ancestors_with_id" in src):
-            res.undecided.append("attr_updates_chain: guard shape not recognised")
+        if not shape_ok:
+            res.undecided.append("attr_updates_chain: guard does not range over the child's direct ancestors")
+        # (2) the child is not in the chain yet
+        not_added = any(norm(t).startswith(flag + "[") for t in false)
         if not not_added:
             res.findings.append(Finding(
                 "R-CHAIN", "attr_updates_chain added-once guard",
                 "attr_updates_chain can append a value that is already in the chain (the not-yet-added test is gone)",
                 rel, a.lineno, "ExplainableObject.attr_updates_chain"))
-        # the flag is set in the same branch
-        marks = [n for n in ast.walk(g) if isinstance(n, ast.Assign) and "has_been_added" in norm(n.targets[0])
-                 and norm(n.value) == "True"]
-        if not marks:
-            res.findings.append(Finding("R-CHAIN", "attr_updates_chain mark", "a value appended to the chain is not marked "
-                                        "as added: it is appended again on the next sweep", rel, a.lineno,
-                                        "ExplainableObject.attr_updates_chain"))
     # 2. keep the last occurrence
     for suffix, q, seq in ((EB, "optimize_attr_updates_chain", "attr_to_update_ids"),
                            (MO, "optimize_mod_objs_computation_chain", "mod_objs_computation_chain")):
@@ -280,10 +293,11 @@ def r_delay(E):
         res.undecided.append("placement shape not recognised")
     else:
         p = place[0]
+        from ..astutil import enorm
         shift = next((c for c in _calls(p.value) if isinstance(c.func, ast.Attribute)
                       and c.func.attr == "return_shifted_hourly_quantities"), None)
         if shift is None or [norm(a) for a in shift.args] != [delay] or \
-                "utc_hourly_usage_journey_starts" not in norm(shift.func.value):
+                "utc_hourly_usage_journey_starts" not in enorm(shift.func.value, fn):
             res.findings.append(Finding("R-DELAY", "placement", f"an occurrence is placed at `{norm(p.value)[:70]}`, not at "
                                         f"the UTC journey starts shifted by the accumulated delay", rel, p.lineno, fn.name))
         if any(isinstance(x, ast.Break) for x in ast.walk(inner)):
@@ -531,29 +545,183 @@ NEEDS = {("/", "right"): {"+", "-", "*", "/"}, ("/", "left"): {"+", "-"}, ("*", 
          ("*", "right"): {"+", "-"}, ("-", "right"): {"+", "-"}}
 
 
-def _eval_paren_cond(test, side_index, child_op):
-    """evaluate the condition under which a parenthesis flag is set, for a child sub-expression whose operator is
-    child_op (the child is a tuple). Returns True/False/None (not understood)."""
-    if isinstance(test, ast.BoolOp):
-        vals = [_eval_paren_cond(v, side_index, child_op) for v in test.values]
-        if None in vals:
-            return None
-        return all(vals) if isinstance(test.op, ast.And) else any(vals)
-    if isinstance(test, ast.Compare) and len(test.ops) == 1:
-        l, r = norm(test.left), test.comparators[0]
-        if l == f"type(tuple_element[{side_index}])" and norm(r) == "tuple":
-            return isinstance(test.ops[0], ast.Eq)
-        if l == f"tuple_element[{side_index}][1]":
-            if isinstance(r, ast.Constant):
-                eq = child_op == r.value
-                return eq if isinstance(test.ops[0], ast.Eq) else (not eq if isinstance(test.ops[0], ast.NotEq) else None)
-            if isinstance(r, (ast.List, ast.Tuple, ast.Set)):
-                vals = {e.value for e in r.elts if isinstance(e, ast.Constant)}
-                if isinstance(test.ops[0], ast.In):
-                    return child_op in vals
-                if isinstance(test.ops[0], ast.NotIn):
-                    return child_op not in vals
-    return None
+class _Undecided(Exception):
+    pass
+
+
+class _Elem:
+    """a symbolic operand of the explanation tuple: a leaf, or a nested tuple computed with operator `op`"""
+    def __init__(self, side, op):
+        self.side, self.op = side, op      # op None = leaf (an ExplainableObject)
+
+
+class _Ret(Exception):
+    def __init__(self, v):
+        self.v = v
+
+
+class _ParenInterp:
+    """symbolic run of print_tuple_element on (left, op, right): returns the displayed string with <L>/<R> placeholders"""
+
+    def __init__(self, fn, op, left, right):
+        self.fn = fn
+        self.params = [a.arg for a in fn.args.args]
+        self.tuple = (left, op, right)
+        self.env = {}
+
+    def run(self):
+        self.env[self.params[1]] = self.tuple
+        if len(self.params) > 2:
+            self.env[self.params[2]] = False
+        try:
+            self.block(self.fn.body)
+        except _Ret as r:
+            return r.v
+        return None
+
+    def block(self, stmts):
+        for s in stmts:
+            if isinstance(s, ast.If):
+                t = self.ev(s.test)
+                if not isinstance(t, bool):
+                    raise _Undecided(f"test {norm(s.test)[:50]}")
+                self.block(s.body if t else s.orelse)
+            elif isinstance(s, ast.Assign):
+                v = self.ev(s.value)
+                for t in s.targets:
+                    if isinstance(t, ast.Name):
+                        self.env[t.id] = v
+                    elif isinstance(t, ast.Tuple) and isinstance(v, tuple) and len(v) == len(t.elts):
+                        for a, b in zip(t.elts, v):
+                            self.env[a.id] = b
+                    else:
+                        raise _Undecided("assignment target")
+            elif isinstance(s, ast.Return):
+                raise _Ret(self.ev(s.value) if s.value is not None else None)
+            elif isinstance(s, ast.FunctionDef):
+                self.env[s.name] = s
+            elif isinstance(s, (ast.Pass, ast.Expr)):
+                continue
+            else:
+                raise _Undecided(f"statement {type(s).__name__}")
+
+    def ev(self, e):
+        if isinstance(e, ast.Constant):
+            return e.value
+        if isinstance(e, ast.Name):
+            if e.id in self.env:
+                return self.env[e.id]
+            if e.id in ("tuple", "str", "ExplainableObject"):
+                return ("class", e.id)
+            raise _Undecided(f"name {e.id}")
+        if isinstance(e, ast.Tuple):
+            return tuple(self.ev(x) for x in e.elts)
+        if isinstance(e, (ast.List, ast.Set)):
+            return [self.ev(x) for x in e.elts]
+        if isinstance(e, ast.Subscript):
+            b = self.ev(e.value)
+            k = self.ev(e.slice)
+            if isinstance(b, tuple) and isinstance(k, int):
+                return b[k]
+            if isinstance(b, _Elem) and k == 1:
+                if b.op is None:
+                    raise _Undecided("operator of a leaf")
+                return b.op
+            raise _Undecided(f"subscript {norm(e)[:40]}")
+        if isinstance(e, ast.BoolOp):
+            res = None
+            for v in e.values:
+                res = self.ev(v)
+                if not isinstance(res, bool):
+                    res = bool(res) if isinstance(res, (str, type(None))) else res
+                if isinstance(e.op, ast.And) and res is False:
+                    return False
+                if isinstance(e.op, ast.Or) and res is True:
+                    return True
+            return res
+        if isinstance(e, ast.UnaryOp) and isinstance(e.op, ast.Not):
+            v = self.ev(e.operand)
+            if isinstance(v, bool):
+                return not v
+            raise _Undecided("not")
+        if isinstance(e, ast.Compare) and len(e.ops) == 1:
+            l, r, op = self.ev(e.left), self.ev(e.comparators[0]), e.ops[0]
+            if isinstance(op, (ast.Is, ast.IsNot)):
+                same = (l is None and r is None)
+                if isinstance(l, _Elem) or isinstance(r, _Elem) or isinstance(l, str) or isinstance(r, str):
+                    same = False
+                return same if isinstance(op, ast.Is) else not same
+            if isinstance(l, tuple) and l and l[0] == "type":
+                is_tuple = isinstance(l[1], tuple) or (isinstance(l[1], _Elem) and l[1].op is not None)
+                if r == ("class", "tuple"):
+                    return is_tuple if isinstance(op, ast.Eq) else not is_tuple
+                if r == ("class", "str"):
+                    return isinstance(l[1], str) if isinstance(op, ast.Eq) else not isinstance(l[1], str)
+                raise _Undecided("type comparison")
+            if isinstance(op, ast.Eq):
+                return l == r
+            if isinstance(op, ast.NotEq):
+                return l != r
+            if isinstance(op, ast.In):
+                return l in r
+            if isinstance(op, ast.NotIn):
+                return l not in r
+            raise _Undecided("comparison")
+        if isinstance(e, ast.JoinedStr):
+            out = ""
+            for v in e.values:
+                if isinstance(v, ast.Constant):
+                    out += str(v.value)
+                else:
+                    x = self.ev(v.value)
+                    if not isinstance(x, str):
+                        raise _Undecided("f-string part")
+                    out += x
+            return out
+        if isinstance(e, ast.BinOp) and isinstance(e.op, ast.Add):
+            l, r = self.ev(e.left), self.ev(e.right)
+            if isinstance(l, str) and isinstance(r, str):
+                return l + r
+            raise _Undecided("+")
+        if isinstance(e, ast.IfExp):
+            t = self.ev(e.test)
+            if not isinstance(t, bool):
+                raise _Undecided("conditional expression")
+            return self.ev(e.body if t else e.orelse)
+        if isinstance(e, ast.Call):
+            f = e.func
+            if isinstance(f, ast.Name) and f.id == "type" and len(e.args) == 1:
+                return ("type", self.ev(e.args[0]))
+            if isinstance(f, ast.Name) and f.id == "isinstance" and len(e.args) == 2:
+                x, c = self.ev(e.args[0]), self.ev(e.args[1])
+                if c == ("class", "tuple"):
+                    return isinstance(x, tuple) or (isinstance(x, _Elem) and x.op is not None)
+                if c == ("class", "str"):
+                    return isinstance(x, str)
+                if c == ("class", "ExplainableObject"):
+                    return isinstance(x, _Elem) and x.op is None
+                raise _Undecided("isinstance")
+            if isinstance(f, ast.Attribute) and f.attr == self.fn.name:
+                x = self.ev(e.args[0])          # recursive call on an operand: a placeholder
+                if isinstance(x, _Elem):
+                    return "<L>" if x.side == "left" else "<R>"
+                raise _Undecided("recursive call")
+            if isinstance(f, ast.Name) and isinstance(self.env.get(f.id), ast.FunctionDef):
+                g = self.env[f.id]
+                sub = _ParenInterp(g, None, None, None)
+                sub.env = dict(self.env)
+                for a, v in zip([x.arg for x in g.args.args], [self.ev(x) for x in e.args]):
+                    sub.env[a] = v
+                for k in e.keywords:
+                    sub.env[k.arg] = self.ev(k.value)
+                sub.fn = self.fn
+                try:
+                    sub.block(g.body)
+                except _Ret as r:
+                    return r.v
+                return None
+            raise _Undecided(f"call {norm(f)[:30]}")
+        raise _Undecided(f"expression {type(e).__name__}")
 
 
 @rule("R-PAREN")
@@ -561,48 +729,33 @@ def r_paren(E):
     pm = E.pm
     res = RuleResult("R-PAREN", "explain() parenthesises a sub-expression wherever operator precedence requires it, so that "
                                 "the displayed formula denotes the recorded operation tree (a / (b * c) is not shown as "
-                                "a / b * c)")
+                                "a / b * c): print_tuple_element is run symbolically on every (operator, operand side, "
+                                "operand's own operator) that needs parentheses")
     rel, fn = pm.find_function(EB, "ExplainableObject.print_tuple_element")
-    branches = {}
-    for n in ast.walk(fn):
-        if isinstance(n, ast.If) and isinstance(n.test, ast.Compare) and norm(n.test.left) == "tuple_element[1]":
-            ops = []
-            c = n.test.comparators[0]
-            if isinstance(n.test.ops[0], ast.Eq) and isinstance(c, ast.Constant):
-                ops = [c.value]
-            elif isinstance(n.test.ops[0], ast.In) and isinstance(c, (ast.List, ast.Tuple, ast.Set)):
-                ops = [e.value for e in c.elts if isinstance(e, ast.Constant)]
-            for o in ops:
-                branches.setdefault(o, n)
-    if not branches:
-        res.undecided.append("print_tuple_element: operator branches not found")
-        return res
     for (op, side), need in sorted(NEEDS.items()):
-        br = branches.get(op)
-        idx = 0 if side == "left" else 2
-        flag = f"{side}_parenthesis"
         for child in sorted(need):
             res.instances += 1
-            if br is None:
-                res.findings.append(Finding("R-PAREN", f"{op} {side} {child}", f"print_tuple_element has no branch for "
-                                            f"operator {op!r}", rel, fn.lineno, fn.name))
+            left = _Elem("left", child if side == "left" else None)
+            right = _Elem("right", child if side == "right" else None)
+            try:
+                shown = _ParenInterp(fn, op, left, right).run()
+            except _Undecided as u:
+                res.undecided.append(f"print_tuple_element: cannot evaluate symbolically ({u})")
                 continue
-            setters = [s for s in br.body if isinstance(s, ast.If) and any(
-                isinstance(a, ast.Assign) and norm(a.targets[0]) == flag and norm(a.value) == "True" for a in s.body)]
-            verdicts = [_eval_paren_cond(s.test, idx, child) for s in setters]
-            if any(v is None for v in verdicts):
-                res.undecided.append(f"print_tuple_element: condition of {flag} under {op!r} not understood")
+            ph = "<L>" if side == "left" else "<R>"
+            if not isinstance(shown, str) or ph not in shown:
+                res.undecided.append(f"print_tuple_element: unexpected result {str(shown)[:40]!r} for operator {op!r}")
                 continue
-            if not any(verdicts):
+            if f"({ph})" not in shown:
                 a, b = ("(x %s y) %s z" % (child, op), "x %s y %s z" % (child, op)) if side == "left" else \
                        ("x %s (y %s z)" % (op, child), "x %s y %s z" % (op, child))
                 res.findings.append(Finding(
                     "R-PAREN", f"{op} {side} operand with {child}",
                     f"explain(): under operator {op!r} a {side} operand computed with {child!r} is printed without "
-                    f"parentheses: the recorded `{a}` is displayed as `{b}`, which re-evaluates to another value", rel,
-                    br.lineno, fn.name))
+                    f"parentheses (`{shown}`): the recorded `{a}` is displayed as `{b}`, which re-evaluates to another "
+                    f"value", rel, fn.lineno, fn.name))
             elif len(res.samples) < 4:
-                res.samples.append({"operator": op, "operand": side, "child_operator": child, "verdict": "parenthesised"})
+                res.samples.append({"operator": op, "operand": side, "child_operator": child, "displayed": shown})
     res.floor = 12
     return res
 
